@@ -3,7 +3,7 @@
 #  (1) the demo passes on the unchanged tree, (2) the patch applies and compiles, (3) the 39 baseline
 #  tests stay green with it, (4) the demo fails with it. Removes the worktree afterwards.
 set -u
-d=$(realpath "$1"); name=$(basename "$(dirname "$d")")-$(basename "$d")
+d=$(realpath "$1"); name=$(basename "$(dirname "$(dirname "$d")")")-$(basename "$d")-$$
 export GOFLAGS=-mod=mod GOPROXY=off GOSUMDB=off GOTOOLCHAIN=local
 wt=/tmp/confirm/$name; rm -rf "$wt"; mkdir -p /tmp/confirm
 git -C /repo worktree add -q --detach "$wt" HEAD || exit 9
